@@ -17,7 +17,7 @@ RULE = ("server streams as in C15 (redefinition, partial updates, kind mismatche
         "later callback, register a new one). An always-registered spy callback yields the raised events, which must equal (as a "
         "multiset, per message) the events an independent reference interpreter derives from consecutive mirror snapshots; the "
         "dispatch is then simulated on the spy's observed order to obtain, per callback, the exact invocations required; value and "
-        "state chains are checked for continuity and against the final view. Every fourth stream ends with a callback that re-enters the "
+        "state chains are checked for continuity and against the final view. In every third stream the application assigns pending (unsubmitted) values to known elements between messages. Every fourth stream ends with a callback that re-enters the "
         "client (has another message for the same property processed while an event is being dispatched), every fourth with a "
         "setBLOBVector that can only be applied in part (second element with a wrong size); for those tails only the chain oracle "
         "applies. non-trivial = a stream with >= 5 events and >= 3 "
@@ -26,7 +26,7 @@ ASSUMPTIONS = ["no order among the events of one message is demanded", "for BLOB
                "a callback registered while an event is being dispatched may or may not receive that event"]
 REQUIRED_EVENTS = ["streams", "events_raised", "callback_invocations_checked", "callbacks_removed_between_messages", "criteria_removals_matching_several",
                    "in_callback_self_removals", "in_callback_removals_of_later", "raising_callbacks_invoked", "coroutine_callbacks_invoked",
-                   "chains_checked", "messages_processed_from_inside_a_callback", "partially_applicable_messages"]
+                   "chains_checked", "messages_processed_from_inside_a_callback", "partially_applicable_messages", "pending_values_assigned"]
 
 QUICK_SHARDS = 4
 ETYPES = ["BaseEvent", "ValueUpdate", "StateUpdate", "DefinitionUpdate"]
@@ -78,6 +78,7 @@ async def run_stream(ctx, case):
     rng = ctx.rng("stream", case["i"])
     msgs = X.gen_stream(rng, case["n"])
     cbs = gen_callbacks(ctx.rng("cbs", case["i"]), len(msgs))
+    prng = ctx.rng("pending", case["i"])
     from vf.instr import LoopMonitor
     LoopMonitor(asyncio.get_running_loop())      # collects "exception never retrieved" of raising coroutine callbacks
     client = X.RecordingClient("base")
@@ -194,6 +195,22 @@ async def run_stream(ctx, case):
                         model_reg.remove(cid)
                 elif cb["id"] in model_reg:
                     model_reg.remove(cb["id"])
+        if case["i"] % 3 == 2 and prng.random() < 0.5:
+            # the application assigns a value it has not submitted (yet): a PENDING value, which is none of the server's business
+            # and must not show in, suppress or add any event of the messages that follow
+            cv = stack.client_view(client)
+            cands = [(d, p, en, x["kind"]) for d, props in cv.items() for p, x in props.items() if x["kind"] in ("Text", "Number", "Switch")
+                     for en in x["elements"]]
+            if cands:
+                d_, p_, en_, kind_ = prng.choice(sorted(cands))
+                try:
+                    el_ = client.get_device(d_).get_vector(p_).get_element(en_)
+                    el_.value = {"Text": prng.choice(["pending", "GO", ""]), "Number": prng.choice([0, 1, 2.5, 100]),
+                                 "Switch": prng.choice(["On", "Off"])}[kind_]
+                    ctx.count("pending_values_assigned")
+                except Exception as e:
+                    ctx.violate(f"assigning-a-pending-value-raises:{kind_}:{type(e).__name__}", f"{d_}.{p_}.{en_}: {e!r}", dict(case, message_index=k))
+                    return total_events, len(invoked)
         text = G.write_xml(am, G.spellings(rng, 1)[0])
         view = view_xml(text)
         if am["tag"] == "defBLOBVector":
